@@ -10,7 +10,7 @@ from vlib.monitors import DependencyMonitor, DownstreamOfHaltMonitor
 PROPERTY = "C03"
 
 JOINS = [wl("first_of"), wl("quorum"), wl("or_split_join"), wl("multi_merge"), wl("fail_branch"),
-         wl("jump_cycle", 2, 1), wl("jump_forward_diamond", 1), wl("jump_side_fanin", 1), wl("jump_diamond_loop", 1), wl("jump_two_targets"),
+         wl("jump_cycle", 2, 1), wl("jump_forward_diamond", 1), wl("jump_side_fanin", 1), wl("jump_diamond_loop", 1), wl("jump_two_targets"), wl("or_split_long"), wl("or_split_err"),
          wl("join_fail", "DISCRIMINATOR", 0, True), wl("join_fail", "DISCRIMINATOR", 0, False),
          wl("join_fail", "N_OF_M", 1, True), wl("join_fail", "N_OF_M", 2, True), wl("join_fail", "MULTI_MERGE", 0, True),
          wl("join_fail", "OR", 0, True), wl("join_fail", "AND", 0, True)]
